@@ -198,3 +198,52 @@ package ratelimiter
 //@   ensures [C08.ratelimiter.wait_reports_recorded_cause] w != -1 && ncalls(innerFn) == 0 ==> ncalls(exec.Canceled) == 1 && ncalls(exec.LastError) == 1 && result.Error == reti(exec.LastError, 1)
 //@   havoc
 //@   modifies calls(innerFn), calls(e.stats.acquirePermits), calls(e.onRateLimitExceeded), calls(exec.CopyWithResult), calls(exec.Context), calls(ctx.Done), calls(ctx.Err), canceled(ctx), calls(background().Done), calls(background().Err), canceled(background()), calls(exec.Canceled), calls(exec.LastError)
+
+// One executor per execution: fresh, pointing back at itself (the template dispatches PreExecute / PostExecute through that
+// pointer) and at this policy.
+//@ func (*rateLimiter).ToExecutor
+//@   builder
+//@   requires r != nil
+//@   let x := asref(result, *executor)
+//@   ensures [C01.toexecutor.fresh_self_referential+C05.toexecutor] typeis(result, *executor) && fresh(x) && x.rateLimiter == r && x.BaseExecutor != nil && fresh(x.BaseExecutor) && typeis(x.Executor, *executor) && asref(x.Executor, *executor) == x
+//@   modifies nothing
+
+// ---------------------------------------------------------------------------------------------
+// Builders: how (maxExecutions, period) / maxRate become the interval or the per-period permits the proofs above talk about.
+//@ func SmoothBuilder
+//@   builder
+//@   requires maxExecutions >= 1 && maxExecutions <= 4611686018427387904 && period >= 0
+//@   let c := asref(result, *config)
+//@   ensures [C05.builder.smooth_interval] typeis(result, *config) && fresh(c) && c.interval == ediv(period, maxExecutions) && c.periodPermits == 0 && c.period == 0 && c.maxWaitTime == 0 && c.onRateLimitExceeded == nil
+//@   modifies nothing
+//@ func SmoothBuilderWithMaxRate
+//@   builder
+//@   let c := asref(result, *config)
+//@   ensures [C05.builder.smooth_max_rate] typeis(result, *config) && fresh(c) && c.interval == maxRate && c.periodPermits == 0 && c.period == 0 && c.maxWaitTime == 0
+//@   modifies nothing
+//@ func BurstyBuilder
+//@   builder
+//@   requires maxExecutions <= 2147483648
+//@   let c := asref(result, *config)
+//@   ensures [C05.builder.bursty] typeis(result, *config) && fresh(c) && c.interval == 0 && c.periodPermits == maxExecutions && c.period == period && c.maxWaitTime == 0
+//@   modifies nothing
+//@ func (*config).WithMaxWaitTime
+//@   builder
+//@   requires c != nil
+//@   ensures [C05.builder.max_wait] c.maxWaitTime == maxWaitTime && c.interval == old(c.interval) && c.periodPermits == old(c.periodPermits) && c.period == old(c.period) && result == asiface(c)
+//@   modifies c.maxWaitTime
+//@ func (*config).OnRateLimitExceeded
+//@   builder
+//@   requires c != nil
+//@   ensures [C16.ratelimiter.listener_registered] c.onRateLimitExceeded == listener && result == asiface(c)
+//@   modifies c.onRateLimitExceeded
+// Build: a smooth limiter iff an interval is configured; a bursty one starts with a full period
+//@ extfunc github.com/failsafe-go/failsafe-go/internal/util.NewStopwatch
+//@   modifies nothing
+//@   ensures result != nil
+//@ func (*config).Build
+//@   builder
+//@   requires c != nil
+//@   let r := asref(result, *rateLimiter)
+//@   ensures [C05.build.kind] typeis(result, *rateLimiter) && fresh(r) && r.config == c && r.stats != nil && (c.interval != 0 ==> typeis(r.stats, *smoothStats) && asref(r.stats, *smoothStats).config == c && asref(r.stats, *smoothStats).nextFreePermitTime == 0 && asref(r.stats, *smoothStats).stopwatch != nil) && (c.interval == 0 ==> typeis(r.stats, *burstyStats) && asref(r.stats, *burstyStats).config == c && asref(r.stats, *burstyStats).availablePermits == c.periodPermits && asref(r.stats, *burstyStats).currentPeriod == 0 && asref(r.stats, *burstyStats).stopwatch != nil)
+//@   modifies nothing
